@@ -10,7 +10,7 @@ func ProfileFull(avoid map[string]string) *Profile {
 		Optionals: true, Repeateds: true, Enums: true, Timestamps: true, MessageFields: true, SecondFile: true,
 		MaxServices: 2, MaxMethods: 3, Transport: true, BasePaths: true, OddBasePaths: true, DefaultPaths: true, Headers: true,
 		RepeatedQuery: true, QueryOnBody: true, SharedRequest: true,
-		Features: Features(AllFeatures...), MultiFeature: true, AnnotatedNested: true, AnnotateAnyCard: true, MultiWordChild: true,
+		Stratified: true, Features: Features(AllFeatures...), MultiFeature: true, AnnotatedNested: true, AnnotateAnyCard: true, MultiWordChild: true,
 		Rules: true, Examples: true, Avoid: avoid}
 }
 
@@ -27,7 +27,7 @@ func ProfileCodec(avoid map[string]string) *Profile {
 	return &Profile{Name: "codec", MaxDataMessages: 3, MaxFields: 4, Nested: true, Maps: true, Oneofs: true,
 		Optionals: true, Repeateds: true, Enums: true, Timestamps: true, MessageFields: true,
 		MaxServices: 1, MaxMethods: 5, Transport: true, BasePaths: true, QueryOnBody: false,
-		Features: Features(AllFeatures...), MultiFeature: false, AnnotatedNested: true, AnnotateAnyCard: true, MultiWordChild: true,
+		Stratified: true, Features: Features(AllFeatures...), MultiFeature: false, AnnotatedNested: true, AnnotateAnyCard: true, MultiWordChild: true,
 		Avoid: avoid}
 }
 
@@ -46,8 +46,8 @@ func ProfileTransport(avoid map[string]string) *Profile {
 	return &Profile{Name: "transport", MaxDataMessages: 2, MaxFields: 4, Nested: true, Maps: true, Oneofs: true,
 		Optionals: true, Repeateds: true, Enums: true, Timestamps: true, MessageFields: true,
 		MaxServices: 2, MaxMethods: 3, Transport: true, BasePaths: true, OddBasePaths: true, DefaultPaths: true, QueryOnBody: true,
-		RepeatedQuery:   true,
-		Features:        Features("int64", "nullable", "bytes", "timestamp", "empty", "enum_number", "oneof_disc", "unwrap_root_list", "unwrap_root_map"),
+		RepeatedQuery: true,
+		Stratified:    true, Features: Features("int64", "nullable", "bytes", "timestamp", "empty", "enum_number", "oneof_disc", "unwrap_root_list", "unwrap_root_map"),
 		AnnotateAnyCard: true, Avoid: avoid}
 }
 
@@ -100,7 +100,7 @@ func ProfileContract(avoid map[string]string) *Profile {
 	return &Profile{Name: "contract", MaxDataMessages: 3, MaxFields: 4, Nested: true, Maps: true, Oneofs: true,
 		Optionals: true, Repeateds: true, Enums: true, Timestamps: true, MessageFields: true,
 		MaxServices: 2, MaxMethods: 3, Transport: true, BasePaths: true, Headers: true, QueryOnBody: true,
-		Features: Features(AllFeatures...), AnnotatedNested: true, AnnotateAnyCard: true, MultiWordChild: true, ContractStrict: true, Avoid: avoid}
+		Stratified: true, Features: Features(AllFeatures...), AnnotatedNested: true, AnnotateAnyCard: true, MultiWordChild: true, ContractStrict: true, Avoid: avoid}
 }
 
 // ProfileInterop: cross-language calls (TypeScript <-> Go).
@@ -108,7 +108,7 @@ func ProfileInterop(avoid map[string]string) *Profile {
 	return &Profile{Name: "interop", MaxDataMessages: 2, MaxFields: 4, Nested: true, Maps: true, Oneofs: true,
 		Optionals: true, Repeateds: true, Enums: true, Timestamps: true, MessageFields: true,
 		MaxServices: 2, MaxMethods: 3, Transport: true, BasePaths: true, Headers: true, QueryOnBody: false,
-		Features:        Features("int64", "nullable", "bytes", "timestamp", "empty", "oneof_disc", "unwrap_root_list", "unwrap_root_map", "unwrap_map_value"),
+		Stratified: true, Features: Features("int64", "nullable", "bytes", "timestamp", "empty", "oneof_disc", "unwrap_root_list", "unwrap_root_map", "unwrap_map_value"),
 		AnnotateAnyCard: true, ContractStrict: false, TSServer: true, Avoid: avoid}
 }
 
